@@ -219,7 +219,7 @@ def judge(om, kinds, x):
     return None
 
 
-QUICK_PAIRS = [('getq', k) for k in KINDS] + [('raise', 'crash'), ('form', 'upload'), ('wild', 'wild'), ('404', 'crash'), ('gen', 'gen'),
+QUICK_PAIRS = [('getq', k) for k in KINDS[:8]] + [('raise', 'crash'), ('form', 'upload'), ('wild', 'wild'), ('404', 'crash'), ('gen', 'gen'),
                ('chunked', 'chunked'), ('badform', 'badform')]
 
 
@@ -273,7 +273,7 @@ def shards(tier, seed):
 
 
 def bounds(tier, seed):
-    return {'request_kinds': KINDS, 'pairs': len(pairs()), 'preemption_bound': '1 at line granularity for 17 pairs and one triple' if tier == 'quick' else '2 at function-entry granularity for all pairs, 2 at line granularity for three pairs, 1 at line granularity for all pairs and five triples, 1 at opcode granularity (plumbing files) for two pairs',
+    return {'request_kinds': KINDS, 'pairs': len(pairs()), 'preemption_bound': '1 at line granularity for 15 pairs and one triple' if tier == 'quick' else '2 at function-entry granularity for all pairs, 2 at line granularity for three pairs, 1 at line granularity for all pairs and five triples, 1 at opcode granularity (plumbing files) for two pairs',
             'granularity': 'source line' + ('' if tier == 'quick' else '; opcode events in common_helpers.py/response.py for two pairs'),
             'threads': '2' if tier == 'quick' else '2-3'}
 
